@@ -1,7 +1,7 @@
 # mwh.py — shared harness library: drives the real implementation imported from
 # /repo's working tree, records every random request, writes case files for the
 # extracted model, runs the OCaml driver and compares.
-import os, sys, struct, hashlib, json, subprocess, time, copy, random, math, traceback, warnings
+import functools, os, sys, struct, hashlib, json, subprocess, time, copy, random, math, traceback, warnings
 
 ROOT = os.path.dirname(os.path.dirname(os.path.abspath(__file__)))
 REPO = os.environ.get("MABWISER_REPO", "/repo")
@@ -169,15 +169,29 @@ def make_binarizer(code, label, inv):
     if kind == "thr":
         tbl = dict(code[1]); dflt = code[2]
         return lambda arm, r: 1 if r >= tbl.get(inv(arm), dflt) else 0
+    # module-level functions bound by functools.partial: picklable (C19), same behaviour as the former lambdas
     if kind == "flip":
-        return lambda arm, r: 1 if r == 0 else 0
+        return functools.partial(binz_flip)
     if kind == "gt":
-        t = code[1]
-        return lambda arm, r: 1 if r > t else 0
+        return functools.partial(binz_gt, code[1])
     if kind == "const":
-        c = code[1]
-        return lambda arm, r: c
+        return functools.partial(binz_const, code[1])
     raise ValueError(code)
+
+def binz_flip(arm, r):
+    return 1 if r == 0 else 0
+def binz_gt(t, arm, r):
+    return 1 if r > t else 0
+def binz_const(c, arm, r):
+    return c
+
+def make_inv(case):
+    label = make_label(case.get("label", "int"))
+    inv_map = {label(k): k for k in case["arms"]}
+    for o in case["ops"]:
+        if o[0] == "add":
+            inv_map[label(o[1])] = o[1]
+    return label, (lambda l: inv_map[l])
 
 def binz_tokens(code):
     if code is None:
